@@ -37,12 +37,16 @@ def gen(rnd):
     feature = rnd.choice(["none", "none", "offdiag", "offdiag", "offdiag-unknown", "zero-diagonal", "fd-blocks", "fd-dict-ok", "fd-asymmetric", "fd-not-array",
                           "fd-degenerate", "fd-bare", "not-orthonormal", "pairs", "custom-solver", "custom-solver+fd", "legacy-solver",
                           "shared-eigenvalue", "shared-eigenvalue-rounding", "nonhermitian-symbolic-term", "implicit-fd-last", "kpm-nonhermitian",
-                          "shared-eigenvalue-second-order", "fd-dict-multi", "fd-dict-multi"])
+                          "shared-eigenvalue-second-order", "fd-dict-multi", "fd-dict-multi", "nonhermitian-symbolic-term-2nd-quant"])
     cfg["feature"] = feature
     if feature == "shared-eigenvalue-second-order":
         # two blocks that share an energy and are coupled only through a third one: their coupling first appears at second order
         cfg["sizes"] = sizes = [rnd.randint(1, 2) for _ in range(3)]; N = 3
         if desig == "implicit": cfg["designation"] = "indices"
+    if feature == "nonhermitian-symbolic-term-2nd-quant":
+        # a c-number term that is not Hermitian on top of a second-quantised H_0 (Hermitian mode): still not a Hermitian input
+        cfg["carrier"] = carrier = "sympy"; cfg["designation"] = desig = "indices"; cfg["hermitian"] = herm = True
+        if sum(sizes) < 2: cfg["sizes"] = sizes = [1, 1]; N = 2
     if feature == "fd-dict-multi":
         # masks for several blocks in one dictionary, in any insertion order, the defective one (if any) at any position
         N = rnd.choice([2, 3, 3]); cfg["sizes"] = sizes = [2] * N
@@ -121,8 +125,12 @@ def build(cfg, rnd):
             x = sympy.Symbol("x", real=True); und = sympy.sin(x) ** 2 + sympy.cos(x) ** 2 - 1
             for f in facts["off"]: S0[off[f["i"]], off[f["j"]]] = und
         Hs = [S0, S1]
-        if feature == "nonhermitian-symbolic-term" and herm and desig == "indices" and d >= 2:
+        if feature in ("nonhermitian-symbolic-term", "nonhermitian-symbolic-term-2nd-quant") and herm and desig == "indices" and d >= 2:
             S1b = S1.copy(); S1b[0, d - 1] = S1b[0, d - 1] + 1; lam = sympy.Symbol("lambda", real=True)
+            if feature.endswith("2nd-quant"):
+                from sympy.physics.quantum import Dagger as _Dg
+                from sympy.physics.quantum.boson import BosonOp as _Bo
+                _a = _Bo("a"); S0 = S0 + sympy.Rational(1, 3) * _Dg(_a) * _a * sympy.eye(d)       # a boson number operator on every diagonal entry
             Hs = S0 + lam * S1b; kw["symbols"] = [lam]; late = "nonhermitian-term"
     else:
         conv = (lambda x: sparse.csr_array(x)) if carrier == "sparse" else (lambda x: np.array(x))
